@@ -99,6 +99,8 @@ enum Kind {
     SliceSome,
     SliceAny,
     Checkpoint,
+    Noise,
+    Masquerade,
 }
 
 impl Profile {
@@ -107,30 +109,30 @@ impl Profile {
         match self {
             Profile::GcOrders => &[
                 (Add, 22), (Bind, 28), (Put, 20), (Data, 20), (NextIdAdd, 3), (Kid, 1), (Kids, 1),
-                (Clone, 1), (SaveLoad, 1), (Slice, 1), (Merge, 1), (NextId, 1), (Snapshot, 1), (Refresh, 1), (CloneInto, 1), (SliceSome, 1), (SliceAny, 1), (Checkpoint, 1),
+                (Clone, 1), (SaveLoad, 1), (Slice, 1), (Merge, 1), (NextId, 1), (Snapshot, 1), (Refresh, 1), (CloneInto, 1), (SliceSome, 1), (SliceAny, 1), (Checkpoint, 1), (Noise, 3), (Masquerade, 1),
             ],
             Profile::Overwrite => &[
-                (Add, 16), (Bind, 34), (Put, 26), (Data, 14), (Kid, 4), (Kids, 4), (NextIdAdd, 2), (Checkpoint, 3),
+                (Add, 16), (Bind, 34), (Put, 26), (Data, 14), (Kid, 4), (Kids, 4), (NextIdAdd, 2), (Checkpoint, 3), (Noise, 3), (Masquerade, 1),
             ],
             Profile::Readd => &[
-                (Add, 32), (Bind, 24), (Put, 16), (Data, 19), (NextIdAdd, 3), (Kids, 2), (Kid, 4),
+                (Add, 32), (Bind, 24), (Put, 16), (Data, 19), (NextIdAdd, 3), (Kids, 2), (Kid, 4), (Noise, 3), (Masquerade, 1),
             ],
             Profile::Alloc => &[
                 (Add, 16), (Bind, 18), (Put, 10), (Data, 14), (NextId, 12), (NextIdAdd, 14),
-                (Clone, 3), (Merge, 6), (Script, 5), (SaveLoad, 1), (Snapshot, 2), (Refresh, 2), (CloneInto, 2),
+                (Clone, 3), (Merge, 6), (Script, 5), (SaveLoad, 1), (Snapshot, 2), (Refresh, 2), (CloneInto, 2), (Noise, 3), (Masquerade, 1),
             ],
-            Profile::Limit => &[(Add, 18), (Bind, 56), (Put, 12), (Data, 10), (NextIdAdd, 4)],
+            Profile::Limit => &[(Add, 18), (Bind, 56), (Put, 12), (Data, 10), (NextIdAdd, 4), (Noise, 2), (Masquerade, 1)],
             Profile::Forest => &[
                 (Add, 18), (Bind, 24), (Put, 14), (Data, 12), (Merge, 16), (NextIdAdd, 4),
-                (Slice, 4), (Clone, 2), (SaveLoad, 2), (Script, 4),
+                (Slice, 4), (Clone, 2), (SaveLoad, 2), (Script, 4), (Noise, 3), (Masquerade, 1),
             ],
-            Profile::ManyGroups => &[(Add, 30), (Bind, 34), (Put, 26), (Data, 4), (NextIdAdd, 4), (Kids, 2)],
+            Profile::ManyGroups => &[(Add, 30), (Bind, 34), (Put, 26), (Data, 4), (NextIdAdd, 4), (Kids, 2), (Noise, 2), (Masquerade, 1)],
             Profile::Dense => &[
-                (Add, 14), (Bind, 16), (Put, 12), (Data, 16), (NextId, 14), (NextIdAdd, 14), (Clone, 2), (Merge, 6), (Script, 4), (SaveLoad, 1), (Snapshot, 2), (Refresh, 2),
+                (Add, 14), (Bind, 16), (Put, 12), (Data, 16), (NextId, 14), (NextIdAdd, 14), (Clone, 2), (Merge, 6), (Script, 4), (SaveLoad, 1), (Snapshot, 2), (Refresh, 2), (Noise, 3), (Masquerade, 1),
             ],
             Profile::Queries => &[
                 (Add, 18), (Bind, 30), (Put, 16), (Data, 12), (Slice, 5), (SliceSome, 6), (SliceAny, 3), (Kid, 4), (Kids, 4),
-                (NextIdAdd, 4), (Merge, 4),
+                (NextIdAdd, 4), (Merge, 4), (Noise, 3), (Masquerade, 1),
             ],
         }
     }
@@ -494,6 +496,8 @@ pub fn resolve(seed: &OpSeed, m: &Model, profile: Profile) -> Option<Call> {
             Call::SliceAny(pres[idx(a, pres.len())])
         }
         Kind::Checkpoint => Call::Checkpoint,
+        Kind::Noise => Call::Noise(a),
+        Kind::Masquerade => Call::Masquerade,
         Kind::Snapshot => Call::Snapshot,
         Kind::Refresh => Call::RefreshSnapshot,
         Kind::Slice => {
@@ -607,6 +611,8 @@ pub fn classify(m: &Model, c: &Call) -> Vec<&'static str> {
         Call::SliceSome(..) => ev.push("slice_some"),
         Call::SliceAny(..) => ev.push("slice(through dangling edges too)"),
         Call::Checkpoint => ev.push("checkpoint(save and go on)"),
+        Call::Noise(_) => ev.push("foreign activity on the same thread"),
+        Call::Masquerade => ev.push("another graph lives at g's address for a while"),
         Call::RefreshSnapshot => ev.push("clone_from(snapshot)"),
         Call::SaveLoad => ev.push("save+load"),
         Call::Slice(..) => ev.push("slice"),
